@@ -34,7 +34,7 @@ EXPLANATION = (
 )
 
 MANIFEST = {
-    "technique": "static analysis: must-hold lock dataflow on the CFG (with-statement, acquire/release, context-manager helpers), dependence (information-flow) analysis of the lock key, who-may-write call-graph query, path-condition compatibility of locked vs unlocked writes; lock cleanup may not sit inside a with-block whose context manager (transitively, over the call graph) starts worker processes; lock cleanup inside a stage is not reachable between worker start and join (CFG path query)",
+    "technique": "static analysis: must-hold lock dataflow on the CFG (with-statement, acquire/release, context-manager helpers), dependence (information-flow) analysis of the lock key, who-may-write call-graph query, path-condition compatibility of locked vs unlocked writes; lock cleanup may not sit inside a with-block whose context manager (transitively, over the call graph) starts worker processes; lock cleanup inside a stage is not reachable between worker start and join (CFG path query); every attribute the tile / lock path reads is stored by the constructor only (no property computed on demand, no later reassignment)",
     "text": "Decides the mutual-exclusion premises of the read-modify-write interface on every path; with filelock's inter-process contract they imply that no contribution is lost and no reader inside the lock sees a partial file.",
     "note": "Trusted: filelock.SoftFileLock/FileLock give inter-process mutual exclusion keyed by path and release on leaving the with/at release(); os.rename-free direct writes are complete before the lock is released.",
 }
